@@ -704,6 +704,38 @@ func init() {
 				c05Raw(c, "geojson(parts)", b, c05JSONDecs)
 			}
 		}
+		// MVT sizes that multiply: a layer with many keys and many features (allocation must follow the input, not keys x
+		// features), and gzipped tiles whose trailer claims another uncompressed size / whose compressed bytes are altered
+		for _, kf := range [][2]int{{200, 100}, {2000, 3000}, {1, 4000}, {3000, 2}} {
+			fc := geojson.NewFeatureCollection()
+			first := geojson.NewFeature(orb.Point{1, 1})
+			for k := 0; k < kf[0]; k++ {
+				first.Properties[fmt.Sprintf("k%d", k)] = true
+			}
+			fc.Append(first)
+			for f := 1; f < kf[1]; f++ {
+				ft := geojson.NewFeature(orb.Point{float64(f % 50), float64(f % 31)})
+				ft.Properties["k0"] = true // every feature carries a tag
+				fc.Append(ft)
+			}
+			if b, err := mvt.Marshal(mvt.Layers{mvt.NewLayer("big", fc)}); err == nil {
+				c05Raw(c, "mvt(keys x features)", b, c05MvtDecs)
+			}
+		}
+		{
+			fc := geojson.NewFeatureCollection()
+			fc.Append(geojson.NewFeature(orb.LineString{{1, 2}, {3, 4}}))
+			if gz, err := mvt.MarshalGzipped(mvt.Layers{mvt.NewLayer("l", fc)}); err == nil && len(gz) > 12 {
+				for _, claim := range []uint32{0, 1, 1 << 16, 1 << 28, 1<<32 - 1} { // the ISIZE field of the trailer
+					b := append([]byte{}, gz...)
+					binary.LittleEndian.PutUint32(b[len(b)-4:], claim)
+					c05Raw(c, "mvt(gzip trailer)", b, c05MvtDecs)
+				}
+				for i := 0; i < c.pick(200, 2000); i++ { // and general damage to the compressed stream
+					c05Raw(c, "mvt(gzip mutant)", mutate(gz), c05MvtDecs)
+				}
+			}
+		}
 		for n := 0; n <= 14; n++ { // hex text of every short length, with and without the \x marker
 			for _, pre := range []string{"", "\\x", "\\X"} {
 				for _, digits := range []string{"e6100000010100000000", "00000000000000000000", "0101000020e6100000ff", "zz"} {
